@@ -14,16 +14,17 @@
     number (what a minimal perfect hash is; re-checked on the actual cmph values of every
     typelib compiled in a run), the table is the one `pack` builds, 1 ≤ n ≤ 65536 entries
     (values are stored in 16-bit slots; the header field n_local_entries has 16 bits).
-  * C14_gtype_found_partial: no local entry of a blob type outside BLOB_IS_REGISTERED_TYPE
-    carries a GType name.  The full statement is FALSE on the unchanged tree
-    (C14_gtype_boxed_counterexample: a <glib:boxed> entry, BLOB_TYPE_BOXED).
+  * C14_gtype_found: NONE beyond well-formedness of the abstraction: `Entry.gtypeName` is read
+    only for blob kinds whose struct has a `gtype_name` member (`hasGTypeNameField`, table read
+    from girnode.c + the header: struct, boxed, enum, flags, object, interface, union).  Since
+    969dad1 BLOB_IS_REGISTERED_TYPE accepts all of them (C14_registered_kinds).
   * C14_size: sizes below 2^32 (a typelib is addressed with 32-bit offsets).
   * C14_history / C14_step (repository-level lookups with their caches, ALL histories of
     find-by-gtype / find-by-error-domain / find-by-name / lazy and non-lazy loads / lazy → loaded
-    transitions / hash-table reorderings): `Admissible` = typelibs are never unloaded: the only way
-    a typelib leaves a table is the lazy → loaded transition of register_internal, and the typelib
-    registered in its place must have the same directory (the same file mapped again); a hash-table
-    resize only permutes a table.  Needed: C14_no_unload_needed.  A GType is identified with its
+    transitions / hash-table reorderings): `Admissible` = a hash-table resize only permutes a
+    table.  NOTHING is asked of the caller: typelibs are never unloaded, and since cf7a1a1 the
+    lazy → loaded transition registers the typelib that is already in the lazy table (read from the
+    current source: `transitionPromotes`; needed: C14_promotion_needed).  A GType is identified with its
     name and a GQuark with its string.  One version per namespace (versions are C17's subject);
     failed loads do not appear in a history; the dependencies of a non-lazy load are loads of their
     own placed before it.  Two loaded typelibs MAY describe the same GType name / error domain: the
@@ -49,8 +50,9 @@ open GIVerif.Py
     compiled predicate to every enumerator, in both preprocessor variants), so dropping a kind
     (e.g. a range check that loses BLOB_TYPE_UNION = 11) or adding one shows up here. -/
 theorem C14_tables :
-    Gen.registeredInline = [("BLOB_TYPE_STRUCT", 3), ("BLOB_TYPE_ENUM", 5), ("BLOB_TYPE_FLAGS", 6),
-                            ("BLOB_TYPE_OBJECT", 7), ("BLOB_TYPE_INTERFACE", 8), ("BLOB_TYPE_UNION", 11)]
+    Gen.registeredInline = [("BLOB_TYPE_STRUCT", 3), ("BLOB_TYPE_BOXED", 4), ("BLOB_TYPE_ENUM", 5),
+                            ("BLOB_TYPE_FLAGS", 6), ("BLOB_TYPE_OBJECT", 7), ("BLOB_TYPE_INTERFACE", 8),
+                            ("BLOB_TYPE_UNION", 11)]
     ∧ Gen.registeredInline = Gen.registeredMacro
     ∧ Gen.registeredBlobTypes = Gen.registeredInline.map (·.2)
     ∧ (∀ p ∈ Gen.blobTypeEnum, ("GTypelibBlobType", p.1, p.2) ∈ Gen.typelibEnums)
@@ -261,40 +263,36 @@ theorem C14_gtype_domain (d : Dir) (s : Str) :
       rw [scan_locals_null_iff _ d hwf]
       simp
 
-/-- The property as worded ("registered types are found by their GType name") for every local
-    entry that carries a GType name, whatever its blob type. -/
-def C14_gtype_found_full : Prop :=
-  ∀ (d : Dir) (s : Str), d.nLocal ≤ d.entries.length → (∃ e ∈ d.locals, e.gtypeName = some s) →
-    ∃ i e, byGTypeName d s = .entry i e ∧ e.gtypeName = some s
+/-- Every blob kind that CAN carry a GType name — its struct, as girnode.c writes it, has a
+    `gtype_name` member — is accepted by BLOB_IS_REGISTERED_TYPE, and nothing else is: the seven
+    kinds, explicitly. -/
+theorem C14_registered_kinds :
+    Gen.gtypeNameBlobTypes = [3, 4, 5, 6, 7, 8, 11]
+    ∧ (∀ bt, hasGTypeNameField bt = isRegisteredType bt)
+    ∧ (∀ p ∈ Gen.blobStructOf, (p.1, p.2.2) ∈ Gen.blobTypeEnum)
+    ∧ (∀ p ∈ Gen.blobStructOf, p.2.2 ∈ Gen.gtypeNameBlobTypes ↔
+        (p.2.1, "gtype_name", 64, 32) ∈ Gen.blobFields) := by
+  refine ⟨by decide, ?_, by decide, by decide⟩
+  intro bt
+  have h1 : Gen.gtypeNameBlobTypes = [3, 4, 5, 6, 7, 8, 11] := by decide
+  have h2 : Gen.registeredBlobTypes = [3, 4, 5, 6, 7, 8, 11] := by decide
+  simp only [hasGTypeNameField, isRegisteredType, h1, h2]
 
-/-- It FAILS on the unchanged tree: a `<glib:boxed>` entry is written as BLOB_TYPE_BOXED (4) with
-    a GType name, and BLOB_IS_REGISTERED_TYPE does not accept that blob type (replayed on the real
-    code by the harness: finding `by_gtype_name:BLOB_TYPE_BOXED`). -/
-theorem C14_gtype_boxed_counterexample : ¬ C14_gtype_found_full := by
-  intro hfull
-  have := hfull ⟨[⟨"Bx".toList, true, 4, some "TBx".toList, none⟩], 1⟩ "TBx".toList (by decide)
-    ⟨⟨"Bx".toList, true, 4, some "TBx".toList, none⟩, by simp [Dir.locals], rfl⟩
-  obtain ⟨i, e, hf, _⟩ := this
-  have hnull : byGTypeName ⟨[⟨"Bx".toList, true, 4, some "TBx".toList, none⟩], 1⟩ "TBx".toList = .null := by
-    decide
-  rw [hnull] at hf
-  cases hf
-
-/-- What does hold: when GType names only occur on entries of the blob types
-    BLOB_IS_REGISTERED_TYPE accepts (i.e. there is no `<glib:boxed>` entry), every entry carrying a
-    GType name is found by it — the first such entry when several carry the same name. -/
-theorem C14_gtype_found_partial (d : Dir) (s : Str) (hwf : d.nLocal ≤ d.entries.length)
-    (hreg : ∀ e ∈ d.locals, e.gtypeName.isSome = true → isRegisteredType e.blobType = true)
-    (hex : ∃ e ∈ d.locals, e.gtypeName = some s) :
+/-- The property as worded ("registered types are found by their GType name"), full strength:
+    every local entry that carries a GType name — whatever its kind: record, `<glib:boxed>`, union,
+    enumeration, bitfield, class, interface — is found by it (the first such entry when several
+    carry the same name). -/
+theorem C14_gtype_found (d : Dir) (s : Str) (hwf : d.nLocal ≤ d.entries.length)
+    (hex : ∃ e ∈ d.locals, hasGTypeNameField e.blobType = true ∧ e.gtypeName = some s) :
     ∃ i e, byGTypeName d s = .entry i e ∧ e.gtypeName = some s := by
-  obtain ⟨e0, he0, hg0⟩ := hex
+  obtain ⟨e0, he0, hf0, hg0⟩ := hex
   cases hres : byGTypeName d s with
   | entry i e =>
     exact ⟨i, e, rfl, (((C14_gtype_domain d s).1 i e).mp hres).2.1.2⟩
   | null =>
     exfalso
     have := (((C14_gtype_domain d s).2.2 hwf).1.mp hres) e0 he0
-    exact this ⟨hreg e0 he0 (by simp [hg0]), hg0⟩
+    exact this ⟨by rw [← C14_registered_kinds.2.1]; exact hf0, hg0⟩
   | oob => exact absurd hres ((C14_gtype_domain d s).2.2 hwf).2.2.1
 
 /-- Error enumerations are found by their domain (full strength: "error enumeration" = a local
@@ -442,6 +440,10 @@ theorem C14_cache_shape :
       ("register_internal", ["else:lazy"], "g_hash_table_insert", "typelibs"),
       ("register_internal", [], "g_hash_table_remove_all", "unknown_gtypes"),
       ("register_internal", [], "return", ""),
+      ("g_irepository_load_typelib", ["if:get_registered_status(repository,namespace,nsversion,allow_lazy,&is_lazy,&version_conflict)"], "return", ""),
+      ("g_irepository_load_typelib", ["if:version_conflict!=NULL"], "return", ""),
+      ("g_irepository_load_typelib", ["if:is_lazy"], "g_hash_table_lookup", "lazy_typelibs"),
+      ("g_irepository_load_typelib", [], "return", ""),
       ("g_irepository_find_by_gtype", [], "g_hash_table_lookup", "info_by_gtype"),
       ("g_irepository_find_by_gtype", ["if:cached!=NULL"], "return", ""),
       ("g_irepository_find_by_gtype", [], "cond:g_hash_table_contains", "unknown_gtypes"),
@@ -460,9 +462,21 @@ theorem C14_cache_shape :
       ("g_irepository_find_by_error_domain", ["if:data.result==NULL"], "g_hash_table_foreach", "lazy_typelibs"),
       ("g_irepository_find_by_error_domain", ["if:data.result!=NULL"], "g_hash_table_insert", "info_by_error_domain"),
       ("g_irepository_find_by_error_domain", ["if:data.result!=NULL"], "return", ""),
-      ("g_irepository_find_by_error_domain", [], "return", "")]
-    ∧ registerClearsUnknown true = true ∧ registerClearsUnknown false = true := by
-  decide
+      ("g_irepository_find_by_error_domain", [], "return", ""),
+      ("require_internal", ["if:typelib"], "return", ""),
+      ("require_internal", ["if:version_conflict!=NULL"], "return", ""),
+      ("require_internal", ["if:is_lazy"], "g_hash_table_lookup", "lazy_typelibs"),
+      ("require_internal", ["if:is_lazy", "if:!register_internal(repository,g_irepository_get_typelib_path(repository,namespace),FALSE,typelib,error)"], "return", ""),
+      ("require_internal", ["if:is_lazy"], "return", ""),
+      ("require_internal", ["if:mfile==NULL"], "goto", ""),
+      ("require_internal", ["if:!typelib"], "goto", ""),
+      ("require_internal", ["if:strcmp(typelib_namespace,namespace)!=0"], "goto", ""),
+      ("require_internal", ["if:strcmp(typelib_version,tmp_version)!=0"], "goto", ""),
+      ("require_internal", ["if:!register_internal(repository,path,allow_lazy,typelib,error)"], "goto", ""),
+      ("require_internal", [], "return", "")]
+    ∧ registerClearsUnknown true = true ∧ registerClearsUnknown false = true
+    ∧ transitionPromotes = true :=
+  ⟨rfl, by decide, by decide, by decide⟩
 
 /-- One call.  From a state satisfying the cache invariant, a call that respects `OpOk` never
     aborts, re-establishes the invariant, and its answer satisfies the agreement clause on the
@@ -481,13 +495,13 @@ theorem C14_step (s : Repo) (op : Op) (hi : Inv s) (hok : OpOk s op) :
     cases h : loadOp s t lazy pos with
     | none => exact absurd h (loadOp_ne_none s t lazy pos)
     | some s' =>
-      refine ⟨s', .null, by simp [step, h], step_load s s' t lazy pos hi hok h, trivial⟩
+      refine ⟨s', .null, by simp [step, h], step_load s s' t lazy pos hi h, trivial⟩
   | rehash e l => exact ⟨_, .null, rfl, step_rehash s e l hi hok, trivial⟩
 
 /-- ALL histories.  Start from any state satisfying the invariant (the empty repository does) and
     make any sequence of find-by-gtype / find-by-error-domain / find-by-name calls, lazy and
-    non-lazy loads (including lazy → loaded transitions) and hash-table reorderings, under the one
-    hypothesis `Admissible` (no typelib is ever unloaded or replaced by a different one).  Then no
+    non-lazy loads (including lazy → loaded transitions) and hash-table reorderings (`Admissible`
+    only says that a reordering is a permutation; it asks nothing of the caller).  Then no
     call aborts, and EVERY answer of the history agrees with the typelib-level lookups of the
     typelibs loaded at that moment: an info is a typelib-level answer of a loaded typelib, NULL
     means every loaded typelib answers NULL, and when the key is in at most one loaded typelib the
@@ -592,22 +606,39 @@ theorem C14_unknown_clear_needed :
   · simp [Repo.loaded, insertAt, findByGTypeOp, lookupCache, searchGType, findByGTypeIn, orElse]
   · decide
 
-/-- Why `Admissible` is needed (typelibs are never unloaded): when the lazy → loaded transition
-    registers a DIFFERENT typelib under the namespace, the positive cache keeps answering from the
-    typelib that is gone. -/
-theorem C14_no_unload_needed :
+/-- The lazy → loaded transition keeps the typelib that is loaded: loading ANOTHER typelib of the
+    same namespace eagerly promotes the lazily loaded one (cf7a1a1), so the cached info stays
+    justified and the history is admissible without any hypothesis on the caller. -/
+theorem C14_transition_keeps_typelib :
     answers {} [.load exLazy true 0, .findByGType "GObject".toList, .load exLazyOther false 0,
-                .findByGType "GObject".toList] = [.null, .info exThing, .null, .info exThing]
-    ∧ byGTypeName exLazyOther.lib.dir "GObject".toList = .null
-    ∧ ¬ Admissible {} [.load exLazy true 0, .findByGType "GObject".toList, .load exLazyOther false 0,
-                       .findByGType "GObject".toList] := by
+                .findByGType "GObject".toList, .findByName "Lazy".toList "Thing".toList]
+      = [.null, .info exThing, .null, .info exThing, .info exThing]
+    ∧ (promoted {lazy := [exLazy]} exLazyOther).lib.dir = exLazy.lib.dir
+    ∧ Admissible {} [.load exLazy true 0, .findByGType "GObject".toList, .load exLazyOther false 0,
+                     .findByGType "GObject".toList] := by
   refine ⟨by decide, by decide, ?_⟩
-  intro h
-  obtain ⟨_, h1⟩ := h
-  obtain ⟨_, h2⟩ := h1 _ _ rfl
-  obtain ⟨h3, _⟩ := h2 _ _ rfl
-  have := h3 rfl exLazy (by show exLazy ∈ [exLazy]; simp) rfl
-  revert this
+  refine ⟨trivial, fun _ _ h => ?_⟩
+  cases h
+  refine ⟨trivial, fun _ _ h => ?_⟩
+  cases h
+  refine ⟨trivial, fun _ _ h => ?_⟩
+  cases h
+  exact ⟨trivial, fun _ _ _ => trivial⟩
+
+/-- Why the promotion is needed: registering the OTHER typelib in place of the lazily loaded one
+    (what `register_internal` was handed before cf7a1a1) leaves the positive cache answering from
+    a typelib that is gone: no loaded typelib has the key. -/
+theorem C14_promotion_needed :
+    ∃ s1 s2, loadOp {} exLazy true 0 = some s1
+      ∧ registerInternal (findByGTypeOp s1 "GObject".toList).1 exLazyOther false 0 = some s2
+      ∧ (findByGTypeOp s2 "GObject".toList).2 = .info exThing
+      ∧ ∀ t ∈ s2.loaded, byGTypeName t.lib.dir "GObject".toList = .null := by
+  refine ⟨_, _, rfl, rfl, by decide, ?_⟩
+  intro t ht
+  have : t = exLazyOther := by
+    have : t ∈ [exLazyOther] := ht
+    simpa using this
+  rw [this]
   decide
 
 /-- Why equality with the cache-free search needs the key to be in at most one loaded typelib:
@@ -661,7 +692,7 @@ example : byErrorDomain exDir "t-err-quark".toList
     = .entry 2 ⟨"Err".toList, true, 5, some "TErr".toList, some "t-err-quark".toList⟩ := by decide
 -- a bitfield's error domain is not an error enumeration
 example : byErrorDomain exDir "t-fl-quark".toList = .null := by decide
-example : ∀ e ∈ exDir.locals, e.gtypeName.isSome = true → isRegisteredType e.blobType = true := by decide
+example : ∃ e ∈ exDir.locals, hasGTypeNameField e.blobType = true ∧ e.gtypeName = some "TRec".toList := by decide
 example : findByGType [⟨exDir, "T".toList⟩] "TRec".toList
     = .entry 0 1 ⟨"Rec".toList, true, 3, some "TRec".toList, none⟩ := by decide
 -- found by the second pass although the C prefix does not match
@@ -693,15 +724,11 @@ example : Admissible {} [.findByGType "GObject".toList, .load exLazy true 0, .fi
     .load exLazy false 0, .rehash [exLazy] [], .findByGType "GObject".toList] := by
   refine ⟨trivial, fun _ _ h => ?_⟩
   cases h
-  refine ⟨fun h => (by cases h), fun _ _ h => ?_⟩
+  refine ⟨trivial, fun _ _ h => ?_⟩
   cases h
   refine ⟨trivial, fun _ _ h => ?_⟩
   cases h
-  refine ⟨fun _ t' ht' _ => ?_, fun _ _ h => ?_⟩
-  · have : t' = exLazy := by
-      have : t' ∈ [exLazy] := ht'
-      simpa using this
-    rw [this]
+  refine ⟨trivial, fun _ _ h => ?_⟩
   cases h
   refine ⟨⟨List.Perm.refl _, List.Perm.refl _⟩, fun _ _ h => ?_⟩
   cases h
